@@ -367,6 +367,16 @@ def chk_derived(ctx, p, t, how):
     _pair(P1, T1, full=True)
     _pair(P1, T0, full=False)
     _pair(P0, T1, full=False)
+    # objects of a DIFFERENT value derived from an already-used parent (whatever state the parent carried must not leak)
+    for name in ("complement", "reverse", "inverse", "flip_antidiagonal", "reverse_complement", "stack_sort", "shift_up", "shift_right"):
+        D = getattr(P0, name)()
+        _pair(D, T0, full=False)
+        _pair(D, T1, full=False)
+        if len(D) <= 4:
+            _pair(D, D.direct_sum(T0), full=False)
+    for k in (1, 2, 3):
+        _pair(P0.rotate(k), T0, full=False)
+    _pair(P0, T0.complement(), full=False)
     # sub-permutations obtained through the API, used as patterns of their parent
     if len(T0) >= 2:
         S = T0.remove(ctx.rng.randrange(len(T0)))
